@@ -76,10 +76,28 @@ func (c *ExecutionControl) CreateJob(ctx context.Context, rjc *execution.JobConf
 		return nil
 	}
 
+	// The Job may have been created even though an error was returned (e.g. the
+	// request timed out after it was applied). Creating it again later is not safe:
+	// by then the Job may already have finished and been cleaned up, and it would
+	// be created, and run, a second time. Check if it was in fact created.
+	if err != nil && !isCreateDefinitelyNotApplied(err) {
+		if existing, getErr := c.client.Jobs(rj.GetNamespace()).Get(ctx, rj.GetName(), metav1.GetOptions{}); getErr == nil &&
+			metav1.IsControlledBy(existing, rjc) {
+			createdRj, err = existing, nil
+		}
+	}
+
 	if err != nil {
 		return errors.Wrapf(err, "cannot create job")
 	}
 
 	c.recorder.CreatedJob(ctx, rjc, createdRj)
 	return nil
+}
+
+// isCreateDefinitelyNotApplied returns true if the error returned by the
+// apiserver guarantees that the object was not created by this request.
+func isCreateDefinitelyNotApplied(err error) bool {
+	return kerrors.IsAlreadyExists(err) || kerrors.IsInvalid(err) || kerrors.IsForbidden(err) ||
+		kerrors.IsBadRequest(err) || kerrors.IsNotFound(err)
 }
